@@ -16,6 +16,10 @@ let value = function
   | Default -> "D"
   | VarArgs l -> "V" ^ names l
   | KwArgs l -> "W" ^ names l
+  | AnyV -> "A"
+  | Elem j -> "E" ^ string_of_int (int_of_nat j)
+  | StarV j -> "S" ^ string_of_int (int_of_nat j)
+  | KwOpaque -> "WO"
 let ok s r =
   match lookup_all s r with
   | Some l -> "O:" ^ String.concat "," (List.map (function Some v -> value v | None -> "-") l)
@@ -40,6 +44,8 @@ let () =
   try
     while true do
       let line = input_line stdin in
+      let is_x = String.length line > 0 && line.[0] = 'X' in
+      let line = if is_x then String.sub line 1 (String.length line - 1) else line in
       let toks = Array.of_list (List.map int_of_string
                    (List.filter (fun s -> s <> "") (String.split_on_char ' ' line))) in
       let i = ref 0 in
@@ -49,6 +55,26 @@ let () =
       let p = lst () in let q = lst () in let k = lst () in let d = lst () in
       let va = opt () in let kw = opt () in
       let s = { posonly = p; pos_or_kw = q; kwonly = k; defaults = d; varargs = va; kwargs = kw } in
+      if is_x then begin
+        (* X-lines (call sites with splats):  <sig> xnpos  nitems item..  nkws kws..  opaque  frames
+           item: 0 plain argument, 1 indefinite splat, 2+n splat of a concrete tuple/list of n elements;
+           frames = len(vm.frames) at the call (0 = not given).  Output:
+           <wf> TAB <bind_px (code before fix)> TAB <bind_px> TAB <items after site_items: a / s> TAB <call_at_depth> *)
+        let xnp = nat_of_int (next ()) in
+        let nit = next () in
+        let pits = List.init nit (fun _ -> let v = next () in
+                     if v = 0 then PA else if v = 1 then PX else PT (nat_of_int (v - 2))) in
+        let ks = lst () in
+        let opq = next () = 1 in
+        let frames = next () in
+        let items = site_items pits in
+        let xc = { x_npos = xnp; x_items = items; x_kws = ks; x_opaque = opq } in
+        let wf = if wf_sigb s && nodupb ks then "1" else "0" in
+        let its = String.concat "" (List.map (function IArg -> "a" | IStar -> "s") items) in
+        let depth = match call_at_depth (nat_of_int 4) (nat_of_int frames) false s xc with
+          | ORaise _ -> "raise" | OUnsolvable -> "U" | ORun _ -> "run" in
+        print_endline (String.concat "\t" [wf; py s (bind_px_gen false s xc); py s (bind_px_gen true s xc); its; depth])
+      end else
       let np = nat_of_int (next ()) in
       let ks = lst () in
       let sh = { npos = np; kws = ks } in
